@@ -128,6 +128,13 @@ fn gen_serial(t: &mut Tape) -> u64 {
 }
 
 fn gen_data(t: &mut Tape) -> Bytes {
+    if t.chance(1, 1500) {
+        // an object larger than the 1 MB *header* limit: the limit in force for
+        // publish elements is the 100 MB one, in snapshots and deltas alike
+        let n = 800_000 + t.choose(2_500_000) as usize;
+        let seed = t.choose(256) as u8;
+        return Bytes::from((0..n).map(|i| seed.wrapping_add((i as u8).wrapping_mul(7))).collect::<Vec<u8>>());
+    }
     let n = match t.choose(11) {
         10 => {
             // around power-of-two buffer sizes that encoders/decoders like to
@@ -1159,6 +1166,115 @@ impl C09 {
     }
 }
 
+//------------ Class G: hostile field values -----------------------------------------------------
+
+/// One hostile replacement for an attribute value, as it appears between the
+/// quotes (already escaped where needed).
+fn hostile_value(t: &mut Tape, expected_len: usize) -> String {
+    // characters that need 2, 3 and 4 bytes in UTF-8, as raw text or as
+    // decimal / hexadecimal character references
+    let wide = ['\u{e9}', '\u{20ac}', '\u{1F600}'];
+    let target = match t.choose(6) {
+        0 => expected_len,
+        1 => expected_len + 1,
+        2 => expected_len.saturating_sub(1),
+        3 => 0,
+        4 => expected_len * 2,
+        _ => t.choose(80) as usize,
+    };
+    match t.choose(8) {
+        0 => String::new(),
+        1 => "-1".into(),
+        2 => "18446744073709551616".into(),
+        3 => format!("+{}", t.choose(100)),
+        4 => " 1 ".into(),
+        5 => "0x10".into(),
+        _ => {
+            // a value of `target` bytes (after unescaping) mixing ASCII with
+            // multi-byte characters at random positions
+            let mut out = String::new();
+            let mut bytes = 0usize;
+            while bytes < target {
+                let room = target - bytes;
+                let pick = t.choose(5);
+                let (ch, n) = if pick < 2 || room < 2 {
+                    (*t.pick(&['a', 'f', '0', '9', 'G', '-', '/', ':']), 1)
+                } else {
+                    let c = wide[t.choose(3) as usize];
+                    let n = c.len_utf8();
+                    if n > room { ('b', 1) } else { (c, n) }
+                };
+                if n == 1 {
+                    out.push(ch);
+                } else {
+                    match t.choose(3) {
+                        0 => out.push(ch),
+                        1 => out.push_str(&format!("&#{};", ch as u32)),
+                        _ => out.push_str(&format!("&#x{:X};", ch as u32)),
+                    }
+                }
+                bytes += n;
+            }
+            out
+        }
+    }
+}
+
+impl C09 {
+    /// Class G: a library-written document in which one attribute value was
+    /// replaced by a hostile one (wrong length, out-of-range numbers, multi-byte
+    /// characters as text or character references, sized so that byte and
+    /// character counts disagree). Must give an error or a value, never a
+    /// panic, under any chunking.
+    fn class_g(&self, ctx: &Arc<SimCtx>, doc: &Doc, bytes: &Arc<Vec<u8>>, counters: &mut Counters, out: &mut RunOut) -> Result<(), Violation> {
+        // locate the attribute values: name="value"
+        let text = bytes.as_ref();
+        let mut spans: Vec<(usize, usize, usize)> = Vec::new(); // (value start, value end, name length class)
+        let mut i = 0;
+        while i + 2 < text.len() {
+            if text[i] == b'=' && text[i + 1] == b'"' {
+                if let Some(end) = text[i + 2..].iter().position(|b| *b == b'"') {
+                    spans.push((i + 2, i + 2 + end, end));
+                    i += end + 3;
+                    continue;
+                }
+            }
+            i += 1;
+            if spans.len() > 200 {
+                break;
+            }
+        }
+        if spans.is_empty() {
+            return Ok(());
+        }
+        for _ in 0..24 {
+            let (vs, ve, vlen) = spans[ctx.choose(spans.len() as u64) as usize];
+            let (val, rcfg) = {
+                let mut t = ctx.tape.lock().unwrap();
+                (hostile_value(&mut t, vlen), gen_read_cfg(&mut t, true))
+            };
+            let mut damaged = text[..vs].to_vec();
+            damaged.extend_from_slice(val.as_bytes());
+            damaged.extend_from_slice(&text[ve..]);
+            let damaged = Arc::new(damaged);
+            let mut r = reader(ctx, &damaged, rcfg);
+            ctx.ev(60, vs as u64, || format!("G: attribute value at byte {} (was {} bytes) replaced by {:?}", vs, vlen, val.chars().take(80).collect::<String>()));
+            let res = guarded("parse-hostile-field", || Ok(doc.parse_same(&mut r)))?;
+            out.evaluations += 1;
+            out.sub_sigs.push(fnv(&damaged) ^ 0x60);
+            counters.bump("fault_hostile_field_value");
+            if r.over_consumed > 0 {
+                return Err(Violation::new("over-consume", "field", format!("the parser consumed {} bytes more than fill_buf had exposed", r.over_consumed)));
+            }
+            match res {
+                Ok(_) => counters.bump("probe_hostile_field_accepted"),
+                Err(_) => counters.bump("probe_hostile_field_rejected"),
+            }
+        }
+        Ok(())
+    }
+}
+
 //------------ Class D: hostile peer -------------------------------------------------------
 
 #[derive(Clone, Copy, Debug, PartialEq, Eq)]
@@ -1440,7 +1556,9 @@ impl C09 {
     /// element stays just below the 100 MB per-element limit must round-trip;
     /// (1) one whose element exceeds it must be cut off within the bound; (2) a
     /// snapshot of 110 one-megabyte objects - 147 MB in total, every element far
-    /// below the limit - must round-trip, i.e. the limit is per element.
+    /// below the limit - must round-trip, i.e. the limit is per element; (3) a
+    /// delta with a 5 MB publish, a withdraw and a 97 MB update must round-trip
+    /// (the 100 MB limit applies to delta elements as well).
     fn large_valid_case(&self, ctx: &Arc<SimCtx>, which: u64, counters: &mut Counters, out: &mut RunOut) -> Result<(), Violation> {
         let fill = |n: usize, seed: u8| -> Bytes {
             let mut v = vec![0u8; n];
@@ -1453,7 +1571,12 @@ impl C09 {
         let doc = match which {
             0 => Doc::Snapshot(Snapshot::new(Uuid::nil(), 1, vec![PublishElement::new(uri(0), fill(73_000_000, 1))])),
             1 => Doc::Snapshot(Snapshot::new(Uuid::nil(), 1, vec![PublishElement::new(uri(0), fill(76_000_000, 2))])),
-            _ => Doc::Snapshot(Snapshot::new(Uuid::nil(), 1, (0..110).map(|i| PublishElement::new(uri(i), fill(1_000_000, i as u8))).collect())),
+            2 => Doc::Snapshot(Snapshot::new(Uuid::nil(), 1, (0..110).map(|i| PublishElement::new(uri(i), fill(1_000_000, i as u8))).collect())),
+            _ => Doc::Delta(Delta::new(Uuid::nil(), 2, vec![
+                DeltaElement::Publish(PublishElement::new(uri(0), fill(5_000_000, 3))),
+                DeltaElement::Withdraw(WithdrawElement::new(uri(1), Hash::from([7u8; 32]))),
+                DeltaElement::Update(UpdateElement::new(uri(2), Hash::from([9u8; 32]), fill(73_000_000, 4))),
+            ])),
         };
         let mut w = SimWrite::new(ctx, WriteCfg { short_writes: false, eintr: 0, fault: WriteFault::None, fault_kind: std::io::ErrorKind::Other });
         guarded("write_xml-large", || Ok(doc.write(&mut w)))?.map_err(|e| Violation::new("write-failed", "large", e.to_string()))?;
@@ -1463,7 +1586,12 @@ impl C09 {
         let rcfg = ReadCfg { mode: 0, chunk_max, eintr: 0, fail_at: None, bound: if which == 1 { Some(l0 + MAX_FILE_SIZE + 2 * 65536) } else { None } };
         let mut r = reader(ctx, &bytes, rcfg);
         let mut rec = Recorder { ctx: ctx.clone(), recs: Vec::new() };
-        let res = guarded("process-large", || Ok(ProcessSnapshot::process(&mut rec, &mut r).map_err(|e| e.to_string())))?;
+        let res = guarded("process-large", || {
+            Ok(match doc {
+                Doc::Snapshot(_) => ProcessSnapshot::process(&mut rec, &mut r).map_err(|e| e.to_string()),
+                _ => ProcessDelta::process(&mut rec, &mut r).map_err(|e| e.to_string()),
+            })
+        })?;
         out.evaluations += 1;
         ctx.ev(30, which, || format!("large valid case {}: document {} bytes, pulled {}, result {:?}", which, bytes.len(), r.pulled, res.as_ref().map_err(|e| e.chars().take(60).collect::<String>())));
         match which {
@@ -1484,13 +1612,17 @@ impl C09 {
                 }
             }
             _ => {
-                counters.bump(if which == 0 { "probe_valid_element_just_below_file_limit" } else { "probe_valid_document_larger_than_file_limit" });
+                counters.bump(match which {
+                    0 => "probe_valid_element_just_below_file_limit",
+                    2 => "probe_valid_document_larger_than_file_limit",
+                    _ => "probe_valid_delta_elements_just_below_file_limit",
+                });
                 match res {
                     Err(e) => {
                         return Err(Violation::new(
                             "roundtrip-rejected",
-                            if which == 0 { "snapshot/element-just-below-limit" } else { "snapshot/document-above-limit-elements-below" },
-                            format!("a library-written snapshot of {} bytes whose largest element is below the {} byte limit is rejected: {}", bytes.len(), MAX_FILE_SIZE, e),
+                            match which { 0 => "snapshot/element-just-below-limit", 2 => "snapshot/document-above-limit-elements-below", _ => "delta/elements-just-below-limit" },
+                            format!("a library-written file of {} bytes whose largest element is below the {} byte limit is rejected: {}", bytes.len(), MAX_FILE_SIZE, e),
                         ));
                     }
                     Ok(()) => {
@@ -1605,7 +1737,8 @@ impl C09 {
                 let mut w = SimWrite::new(ctx, WriteCfg { short_writes: false, eintr: 0, fault: WriteFault::None, fault_kind: std::io::ErrorKind::Other });
                 let _ = doc.write(&mut w);
                 let clean_calls = w.calls;
-                match ctx.choose(5) {
+                match ctx.choose(6) {
+                    5 => self.class_g(ctx, &doc, &bytes, counters, out)?,
                     0 => self.class_b(ctx, &doc, &bytes, counters, out)?,
                     1 => self.class_c(ctx, &doc, clean_calls, counters, out)?,
                     2 => self.class_e(ctx, &doc, &bytes, counters, out)?,
@@ -1634,7 +1767,7 @@ impl Scenario for C09 {
     fn level(&self) -> &'static str { "exploration" }
 
     fn sweep_len(&self, _tier: Tier) -> u64 {
-        3 * 10 * 17 + 3
+        3 * 10 * 17 + 4
     }
 
     fn random_runs(&self, tier: Tier) -> u64 {
@@ -1677,7 +1810,9 @@ impl Scenario for C09 {
          end; disagreement between chunkings is counted), class F (the value re-rendered as a foreign publisher \
          might - BOM, XML declaration, DOCTYPE, comments, single quotes, attribute order, character references, \
          namespace prefix, both empty-element forms, CR LF, wrapped base64 - no panic; equal/different/rejected \
-         counted) or class D (the document taken over at a structural position \
+         counted), class G (one attribute value replaced by a hostile one: wrong length, out-of-range numbers, \
+         multi-byte characters as text or character references sized so that byte and character counts disagree - \
+         no panic) or class D (the document taken over at a structural position \
          by an endless hostile run with the bytes-pulled monitor armed). The sweep walks document kind x \
          position (10) x hostile kind (17) deterministically. evaluations = parses/writes executed; \
          distinct = distinct hash of (document bytes or prefix, fault kind, fault offset, chunk size) \
@@ -1719,7 +1854,10 @@ impl Scenario for C09 {
         if totals.get("probe_file_limit_tripped") == 0 {
             return Some("no stream ever tripped the 100 MB file limit".into());
         }
-        if totals.get("probe_valid_element_just_below_file_limit") == 0 || totals.get("probe_valid_document_larger_than_file_limit") == 0 {
+        if totals.get("probe_valid_element_just_below_file_limit") == 0
+            || totals.get("probe_valid_document_larger_than_file_limit") == 0
+            || totals.get("probe_valid_delta_elements_just_below_file_limit") == 0
+        {
             return Some("the limits were never approached from the valid side".into());
         }
         None
